@@ -796,6 +796,7 @@ class RecTransport:
     def write(self, data):
         self.calls.append('W')
         self.last = bytes(data)
+        self.writes = getattr(self, 'writes', []) + [bytes(data)]
 
     def writeSequence(self, seq):
         self.write(b''.join(seq))
@@ -804,11 +805,9 @@ class RecTransport:
         self.disconnecting = True
 
 
-def sender_obs(m, calls):
-    raw = m.rawMessage
+def sender_obs(raw, oob, calls):
     decl, idx = info_of(raw)
-    return 'hdr=%s idx=%s oob=%s send=%s' % ('-' if decl is None else decl, nl(idx),
-                                            nl(list(m.oobFDs or [])), ' '.join(calls))
+    return 'hdr=%s idx=%s oob=%s send=%s' % ('-' if decl is None else decl, nl(idx), nl(oob), ' '.join(calls))
 
 
 def judge_sender(fds, obs_line, decl, idx, oob, calls):
@@ -820,6 +819,10 @@ def judge_sender(fds, obs_line, decl, idx, oob, calls):
     k = len(fds)
     if (decl or 0) != k or (decl is not None and k == 0 and decl != 0):
         return 'sender-header-count', 'unix_fds header %r for %d descriptor arguments' % (decl, k)
+    sent_fds = [c for c in calls if c != 'W']
+    if len(sent_fds) != k:
+        return ('sender-descriptors-not-transmitted',
+                'the header declares %r descriptors, %d were handed to the transport (calls %r)' % (decl, len(sent_fds), calls))
     if idx != list(range(k)):
         return 'sender-indices', 'index values %r for %d descriptor arguments' % (idx, k)
     if oob != fds:
@@ -843,6 +846,20 @@ def stream_sender(ctx):
     obs = []
     conn = client.DBusClientConnection()
     conn._pendingCalls = {}
+    # can this harness drive callRemote on a bare connection at all?  (a plain call, both reply modes)
+    callremote_works = True
+    for expect in (True, False):
+        tr0 = RecTransport()
+        conn.transport = tr0
+        try:
+            conn.callRemote('/a', 'M', signature='s', body=['x'], expectReply=expect)
+        except Exception:
+            pass
+        if tr0.calls != ['W']:
+            callremote_works = False
+    if not callremote_works:
+        ctx.note('sender-callremote: a plain callRemote on a bare DBusClientConnection writes nothing - the harness '
+                 'cannot drive this path; callRemote cases are not judged')
     for sig, body, trees, fds, mode in cases:
         tr = RecTransport()
         toks = []
@@ -861,43 +878,59 @@ def stream_sender(ctx):
             p.transport = tr
             p.sendMessage(m)
         else:
+            # callRemote is observed at the TRANSPORT only (what reaches the wire), with and without a reply
+            # expected; the message object is picked up when sendMessage happens to be the path taken
             oob0 = []
             conn.transport = tr
             sent = []
             orig = conn.sendMessage
             conn.sendMessage = lambda msg: (sent.append(msg), orig(msg))[1]
-            conn.callRemote('/a', 'M', signature=sig, body=body, expectReply=rng.random() < 0.5)
-            del conn.sendMessage
-            if len(sent) != 1:
-                raise RuntimeError('callRemote did not send exactly one message: %r' % (sent,))
-            m = sent[0]
+            expect = rng.random() < 0.5
+            try:
+                conn.callRemote('/a', 'M', signature=sig, body=body, expectReply=expect)
+            finally:
+                del conn.sendMessage
+            m = sent[0] if len(sent) == 1 else None
+            mode = 'callremote' if expect else 'callremote-noreply'
         ctx.impl_trace()
         lines.append('S %d %s %s' % (1 if sig else 0, nl(oob0), ' '.join(toks)))
-        obs.append((m, list(tr.calls), mode, fds))
+        writes = getattr(tr, 'writes', [])
+        raw = m.rawMessage if m is not None else (writes[0] if len(writes) == 1 else None)
+        # the out-of-band list: the message's own when we hold the object, else what was handed to the transport
+        oob = list(m.oobFDs or []) if m is not None else [int(c[1:]) for c in tr.calls if c != 'W']
+        obs.append((raw, oob, list(tr.calls), mode, fds, len(writes)))
     out = ctx.model(lines)
-    for k, ((m, calls, mode, fds), (sig, body, trees, _, _)) in enumerate(zip(obs, cases)):
-        stream = 'sender-callremote' if mode == 'callremote' else 'sender-layout'
-        il = sender_obs(m, calls)
+    for k, ((raw, oob, calls, mode, fds, nwrites), (sig, body, trees, _, _)) in enumerate(zip(obs, cases)):
+        stream = 'sender-callremote' if mode.startswith('callremote') else 'sender-layout'
+        inp = {'sig': sig, 'body': repr(body), 'mode': mode, 'line': lines[k]}
         ctx.case(stream, sample={'sig': sig, 'fds': fds, 'mode': mode, 'line': lines[k]}, nontrivial=bool(fds))
         ctx.stat('%s:fds=%d' % (stream, len(fds)))
         ctx.stat('%s:mode=%s' % (stream, mode))
+        if raw is None:
+            if callremote_works:
+                ctx.violation('sender-nothing-sent', 'callRemote wrote %d messages to the transport for a valid body '
+                              '(transport calls %r)' % (nwrites, calls), inp=inp, observed=calls,
+                              expected='f.. W (the descriptors, then the one message)')
+            continue
+        il = sender_obs(raw, oob, calls)
         if out is not None and out[k] != il:
-            ctx.disagree(stream, {'line': lines[k], 'sig': sig, 'body': repr(body)}, out[k], il)
+            ctx.disagree(stream, {'line': lines[k], 'sig': sig, 'body': repr(body), 'mode': mode}, out[k], il)
         if mode != 'reused':
-            decl, idx = info_of(m.rawMessage)
-            key, what = judge_sender(fds, il, decl, idx, list(m.oobFDs or []), calls)
+            decl, idx = info_of(raw)
+            key, what = judge_sender(fds, il, decl, idx, oob, calls)
             if key:
-                ctx.violation(key, what, inp={'sig': sig, 'body': repr(body), 'mode': mode, 'line': lines[k]},
-                              observed=il, expected='hdr=k idx=0..k-1 oob=fds send=f.. W')
+                ctx.violation(key, what, inp=inp, observed=il, expected='hdr=k idx=0..k-1 oob=fds send=f.. W')
     # callRemote hands out a fresh list per call: two calls in a row on one connection
     tr = RecTransport()
     conn.transport = tr
     conn.callRemote('/a', 'M', signature='h', body=[11], expectReply=False)
-    conn.callRemote('/a', 'M', signature='h', body=[12], expectReply=False)
+    conn.callRemote('/a', 'M', signature='h', body=[12], expectReply=True)
     ctx.case('sender-callremote', sample={'two-calls': tr.calls})
-    if tr.calls != ['f11', 'W', 'f12', 'W']:
-        reused = sorted(c for c in tr.calls if c != 'W') != ['f11', 'f12']
-        ctx.violation('sender-list-reused' if reused else 'sender-send-order',
+    if tr.calls != ['f11', 'W', 'f12', 'W'] and callremote_works:
+        got = sorted(c for c in tr.calls if c != 'W')
+        key = ('sender-descriptors-not-transmitted' if len(got) < 2 else
+               'sender-list-reused' if got != ['f11', 'f12'] else 'sender-send-order')
+        ctx.violation(key,
                       'two callRemote calls in a row sent %r' % (tr.calls,),
                       inp={'calls': [['h', [11]], ['h', [12]]]}, observed=tr.calls, expected=['f11', 'W', 'f12', 'W'])
 
@@ -918,12 +951,22 @@ def run(ctx):
         run_corpus_entry(ctx, B, data)
     B.flush()
     del SENDER_DEFECTS[:]
-    stream_sender(ctx)
-    stream_recv_exhaustive(ctx, B)
-    stream_recv_random(ctx, B)
-    stream_recv_deep_queue(ctx, B)
-    stream_recv_handshake(ctx, B)
-    stream_recv_malformed(ctx, B)
+    errors = []
+
+    def guarded(fn, *a):
+        # an exception of the harness itself in one stream must not hide the other streams
+        try:
+            fn(*a)
+        except Exception:
+            import traceback
+            errors.append('%s: %s' % (fn.__name__, traceback.format_exc()[-1500:]))
+            B.items = []
+    guarded(stream_sender, ctx)
+    guarded(stream_recv_exhaustive, ctx, B)
+    guarded(stream_recv_random, ctx, B)
+    guarded(stream_recv_deep_queue, ctx, B)
+    guarded(stream_recv_handshake, ctx, B)
+    guarded(stream_recv_malformed, ctx, B)
     for st, k in sorted(SKIPPED.items()):
         ctx.note('stream %s: %d scenarios skipped by the harness (an internal it reaches for has moved)' % (st, k))
     if SKIPPED and ctx.cases == 0:
@@ -931,6 +974,9 @@ def run(ctx):
     for d in SENDER_DEFECTS[:20]:
         ctx.violation('sender-oob-order', 'the out-of-band list of a marshalled body is %r, its descriptor arguments '
                       'are %r (argument order)' % (d['oob'], d['fds']), inp=d, observed=d['oob'], expected=d['fds'])
+    if errors:
+        # every stream has had its turn; now the harness fault is reported (obligation `harness`)
+        raise RuntimeError('harness fault in %d stream(s):\n%s' % (len(errors), '\n'.join(errors)))
 
 
 def replay(ctx, data):
